@@ -24,8 +24,11 @@ case "$1" in
   if [ ! -d $B/repo ]; then git -C /repo worktree add -q --detach $B/repo HEAD; fi
   git -C $B/repo checkout -q -- . ; git -C $B/repo clean -fdq -e target
   git -C $B/repo checkout -q --detach $(git -C /repo rev-parse HEAD)
-  find $B/verif -mindepth 1 -maxdepth 1 ! -name .build -exec rm -rf {} +
-  git -C /verif archive HEAD | tar -x -C $B/verif
+  T=$(mktemp -d /tmp/mut/synchead.XXXXXX); git -C /verif archive HEAD | tar -x -C $T
+  # by content, without timestamps: a changed source gets a fresh mtime (so Coq rebuilds it), an unchanged one keeps its build products
+  rsync -rlpc --delete --exclude .build --exclude '*.vo' --exclude '*.vok' --exclude '*.vos' --exclude '*.glob' --exclude '*.aux' \
+        --exclude 'Makefile*' --exclude '.Makefile.d' --exclude '.nia.cache' --exclude '.lia.cache' --exclude 'Gen.v' --exclude 'evidence/replays' $T/ $B/verif/
+  rm -rf $T
   sed -i "s|path = \"/repo/|path = \"$B/repo/|g" $B/verif/harness/Cargo.toml
   sed -i "s|/verif/.build/cargo-target|$B/verif/.build/cargo-target|" $B/verif/harness/.cargo/config.toml
   rm -f $B/verif/harness/Cargo.lock
